@@ -6,6 +6,7 @@ from hypothesis import strategies as st
 import reactivex
 from reactivex import abc
 from reactivex import operators as ops
+from reactivex.disposable import Disposable as _LibDisposable
 from reactivex.operators import _do as _do_mod
 
 from vlib.core import FAIL, OK, SKIP, Check, HarnessError
@@ -16,8 +17,11 @@ PROPERTY_ID = "C40"
 LEVEL = "fault_enumeration"
 RULE = (
     "Scenario = one logged virtual-time inner source (cold / synchronous / hot, conforming timeline of 0..5 elements ending "
-    "in C, E or nothing) wrapped by (a) reactivex.using(resource_factory, observable_factory) with a logging resource (plain, falsy like an "
-    "empty CompositeDisposable, or None), (b) ops.finally_action / _do.do_finally with a logging action, (c) one of do_action (every subset of the three "
+    "in C, E or nothing) wrapped by (a) reactivex.using(resource_factory, observable_factory) with a logging resource whose KIND is generated "
+    "(plain DisposableBase object; falsy via __len__==0 like an empty CompositeDisposable; falsy via __bool__; __eq__ always True "
+    "(so `r != None` is False) / always False; a subclass of the library's Disposable; list / tuple / dict SUBCLASSES with a "
+    "dispose() method, empty (falsy) and non-empty (members are inert disposables using() does not own, never judged); or None): "
+    "the oracle is the same for every kind -- 'the resource it created' is whatever object the factory returned, (b) ops.finally_action / _do.do_finally with a logging action, (c) one of do_action (every subset of the three "
     "callbacks), do(observer), fluent .do, do_after_next, do_on_subscribe, do_on_dispose, do_on_terminate, "
     "do_after_terminate; optionally followed by take(n) / repeat(2) / retry(2); 1-2 subscriptions at generated ticks, each "
     "with a dispose point: none, a tick before / exactly at / after the terminal's instant (scheduled before or after the "
@@ -46,6 +50,7 @@ RULE = (
 ASSUMPTIONS = [
     "raising teardown: only exceptions raised UPSTREAM of the judged finally operator are injected and judged; a judged finally action that itself raises is not generated (unspecified). For using() a resource left undisposed after its inner subscription's dispose() raised is recorded as a class, not judged (only a double release fails)",
     "finally actions, do_on_subscribe, do_on_dispose and do_after_terminate callbacks do not raise (the property text does not say what happens then)",
+    "resource kinds: every generated non-None resource implements DisposableBase.dispose(); container-typed resources (list/tuple/dict subclasses) are legal resources (using() documents `abc.DisposableBase | None`, nothing about the object's other base classes); what happens to the MEMBERS of such a container is not judged",
     "the resource's own dispose() is counted per call (a second call is a violation even though library disposables are idempotent)",
     "do_finally, do_after_next, do_on_* are taken from reactivex.operators._do (they are not exported through reactivex.operators)",
     "inner sources are conforming; sources ignore the scheduler argument and run on the lab's virtual-time scheduler",
@@ -103,6 +108,97 @@ class FalsyRes(Res):
 
     def __len__(self):
         return 0
+
+
+# ---- resource KINDS (round 8): the property says "the resource it created", whatever object the factory returned.
+# Every kind below is a DisposableBase with a counting dispose(); they differ in what ELSE the object is.
+
+
+class BoolFalseRes(Res):
+    """Falsy through __bool__ (no __len__)."""
+
+    def __bool__(self):
+        return False
+
+
+class EqTrueRes(Res):
+    """Compares equal to everything (also to None): `r != None` is False although r is not None."""
+
+    def __eq__(self, other):
+        return True
+
+    __hash__ = object.__hash__
+
+
+class EqFalseRes(Res):
+    """Compares unequal to everything, itself included."""
+
+    def __eq__(self, other):
+        return False
+
+    def __ne__(self, other):
+        return True
+
+    __hash__ = object.__hash__
+
+
+class LibRes(_LibDisposable):
+    """A subclass of the library's own Disposable (is_disposed flag, action) whose dispose() calls are counted."""
+
+    def __init__(self, lab, idx):
+        super().__init__()
+        self.lab = lab
+        self.idx = idx
+        self.disposed = []
+
+    def dispose(self):
+        self.lab.step()
+        self.disposed.append([self.lab.now(), self.lab.next_seq()])
+        super().dispose()
+
+
+class ListRes(list, Res):
+    """A pool written as a list subclass with dispose() (members are inert disposables that using() does not own)."""
+
+    def __init__(self, lab, idx, items=()):
+        list.__init__(self, items)
+        Res.__init__(self, lab, idx)
+
+
+class TupleRes(tuple, Res):
+    def __new__(cls, lab, idx, items=()):
+        return tuple.__new__(cls, items)
+
+    def __init__(self, lab, idx, items=()):
+        Res.__init__(self, lab, idx)
+
+
+class DictRes(dict, Res):
+    def __init__(self, lab, idx, items=()):
+        dict.__init__(self, items)
+        Res.__init__(self, lab, idx)
+
+
+def _members(lab, n):
+    return [Res(lab, -1 - i) for i in range(n)]
+
+
+_RES_KINDS = {
+    "disp": lambda lab, i: Res(lab, i),
+    "falsy": lambda lab, i: FalsyRes(lab, i),
+    "none": lambda lab, i: None,
+    "boolfalse": lambda lab, i: BoolFalseRes(lab, i),
+    "eq_true": lambda lab, i: EqTrueRes(lab, i),
+    "eq_false": lambda lab, i: EqFalseRes(lab, i),
+    "lib": lambda lab, i: LibRes(lab, i),
+    "list0": lambda lab, i: ListRes(lab, i),
+    "list2": lambda lab, i: ListRes(lab, i, _members(lab, 2)),
+    "tuple0": lambda lab, i: TupleRes(lab, i),
+    "tuple2": lambda lab, i: TupleRes(lab, i, _members(lab, 2)),
+    "dict0": lambda lab, i: DictRes(lab, i),
+    "dict1": lambda lab, i: DictRes(lab, i, [("member", _members(lab, 1)[0])]),
+}
+_RES_NEW = [k for k in _RES_KINDS if k not in ("disp", "falsy", "none")]
 
 
 # ---------------------------------------------------------------------------------------
@@ -199,7 +295,10 @@ def _using_world(case, arm):
     made = []
 
     def rf():
-        r = Res(lab, len(resources)) if case["res"] == "disp" else FalsyRes(lab, len(resources)) if case["res"] == "falsy" else None
+        mk = _RES_KINDS.get(case["res"])
+        if mk is None:
+            raise HarnessError(f"resource kind {case['res']}")
+        r = mk(lab, len(resources))
         resources.append(r)
         return r
 
@@ -859,7 +958,7 @@ def _using_cases(draw):
     if post and post[0] in ("repeat", "retry") and src["kind"] == "sync":
         # bound synchronous resubscription loops: repeat over a sync inner is fine (count bounded), keep as is
         pass
-    return {"src": src, "res": draw(st.sampled_from(["disp", "disp", "falsy", "none"])), "post": post, "subs": subs}
+    return {"src": src, "res": draw(st.sampled_from(["disp", "disp", "disp", "falsy", "none", "none"] + _RES_NEW)), "post": post, "subs": subs}
 
 
 @st.composite
